@@ -54,6 +54,50 @@ func buildCSM(s hist.Step) io.ColumnSeriesMap {
 	return csm
 }
 
+// readBack queries every interval the (already acknowledged) request wrote and reports whether the
+// request's own data is there. The caller owns these intervals, so the expected content is exactly its
+// last write (fixed) / includes all its records (variable).
+func readBack(in *ms.Inst, s hist.Step) string {
+	for _, b := range s.Buckets {
+		last := map[int64]int64{}
+		for _, r := range b.Rows {
+			last[hist.IntervalStart(b.Key, r.T)] = r.V
+		}
+		d := int64(hist.TFDur(hist.KeyTF(b.Key)) / time.Second)
+		for start := range last {
+			var t *ms.Table
+			var err error
+			p := ms.Recover(func() {
+				t, err = in.Query(b.Key, time.Unix(start, 0).UTC(), time.Unix(start+d-1, 999999999).UTC(), 0, false, nil)
+			})
+			if p != "" {
+				return "error panic:" + p
+			}
+			if err != nil {
+				if ms.QueryErrNoData(err) {
+					return fmt.Sprintf("stale %s@%d: no data", b.Key, start)
+				}
+				return "error " + err.Error()
+			}
+			a, _ := t.Cols["A"].([]int64)
+			have := map[int64]bool{}
+			for _, v := range a {
+				have[v] = true
+			}
+			if s.Variable {
+				for _, r := range b.Rows {
+					if hist.IntervalStart(b.Key, r.T) == start && !have[r.V] {
+						return fmt.Sprintf("stale %s@%d: record %d not returned (%d rows)", b.Key, start, r.V, len(a))
+					}
+				}
+			} else if !have[last[start]] {
+				return fmt.Sprintf("stale %s@%d: expected %d, got %v", b.Key, start, last[start], a)
+			}
+		}
+	}
+	return "ok"
+}
+
 func main() {
 	if len(os.Args) < 5 {
 		fmt.Fprintln(os.Stderr, "usage: wlchild <root> <history.json> <markerfile> <outdir>")
@@ -119,6 +163,9 @@ func main() {
 					mark(fmt.Sprintf("E %d %s", s.ID, werr.Error()))
 				default:
 					mark(fmt.Sprintf("A %d", s.ID))
+					if s.ReadBack {
+						mark(fmt.Sprintf("R %d %s", s.ID, readBack(in, s)))
+					}
 				}
 			case "checkpoint":
 				if h.Mode == "inline" {
